@@ -59,7 +59,7 @@ ANCHORS = ['pfhedge.features.features:UnderlierSpot.get',
            'pfhedge.nn.modules.hedger:Hedger.compute_hedge',
            'pfhedge.nn.functional:pl']
 PYTEST_WORKLOAD = True  # thorough tier also runs /repo/tests with these passive monitors attached (DESIGN.md 2.7)
-DECIDING = ["buffer.untouched", "args.untouched", "history.independent"]
+DECIDING = ["binding.stays_bound", "buffer.untouched", "args.untouched", "history.independent"]
 REQUIRED_BRANCHES = ["seq.listed_hedge", "feature.log_all_steps", "feature.module_output", "listed.spot", "op.fit", "op.to", "op.price", "seq.dtype_switch",
                      "seq.path_count_switch"]
 
@@ -364,9 +364,22 @@ def _hedge_of(d):
     return None if d._listed is None else [d._listed]
 
 
-def _fresh(hedger, names, dtype):
-    h = Hedger(copy.deepcopy(hedger.model), [copy.deepcopy(n) if not isinstance(n, str) else n for n in names], criterion=copy.deepcopy(hedger.criterion))
-    return h
+def _fresh(hedger, names, pristine):
+    """A hedger that has never been used: the model and criterion are copies, the feature objects are copies taken before first use that receive the
+    current parameter values (a copy of a used feature would carry along whatever the use left behind)."""
+    feats = []
+    for n, n0 in zip(names, pristine):
+        if isinstance(n, str):
+            feats.append(n)
+            continue
+        f = copy.deepcopy(n0)
+        if isinstance(n, torch.nn.Module):
+            ref = next(iter(n.parameters()), None)
+            if ref is not None:
+                f.to(ref.dtype)
+            f.load_state_dict(copy.deepcopy(n.state_dict()))
+        feats.append(f)
+    return Hedger(copy.deepcopy(hedger.model), feats, criterion=copy.deepcopy(hedger.criterion))
 
 
 def drv_sequences(ctx, k, rng):
@@ -379,10 +392,21 @@ def drv_sequences(ctx, k, rng):
         # a feature with its own parameters, shared by every derivative the hedger is used with
         names.append(ModuleOutput(torch.nn.Linear(2, 1), ["underlier_spot", "volatility"]))
         ctx.branch("seq.module_output_feature")
+    if rng.random() < 0.25:
+        # a module-output feature that reads the hedger's own state
+        names.append(ModuleOutput(torch.nn.Identity(), ["prev_hedge"]))
+        ctx.branch("seq.module_output_of_prev_hedge")
     n_in = len(names)
+    pristine = copy.deepcopy(names)
     model = MultiLayerPerceptron(in_features=n_in, out_features=1, n_layers=2, n_units=5, activation=torch.nn.Tanh())
     crit = pick(rng, [EntropicRiskMeasure(), ExpectedShortfall(0.4)])
     hedger = Hedger(model, list(names), criterion=crit)
+    # a second hedger on the very same feature objects (two models compared on one feature set): each must behave as if it were alone
+    hedgers = [hedger]
+    if rng.random() < 0.4:
+        hedgers.append(Hedger(MultiLayerPerceptron(in_features=n_in, out_features=1, n_layers=1, n_units=4, activation=torch.nn.Tanh()), list(names),
+                              criterion=copy.deepcopy(crit)))
+        ctx.branch("seq.two_hedgers_share_features")
     ders = []
     for i in range(3):
         dtype = pick(rng, [None, F64])
@@ -402,7 +426,7 @@ def drv_sequences(ctx, k, rng):
     if len({d._n for d in ders}) > 1:
         ctx.branch("seq.path_count_switch")
 
-    def use(d):
+    def use(d, hedger=hedger):
         dt_ = d.ul().dtype or torch.get_default_dtype()
         hedger.to(dt_)
         for f_ in hedger.inputs.features:
@@ -413,11 +437,14 @@ def drv_sequences(ctx, k, rng):
 
     L = int(rng.integers(3, 13))
     seq = []
+    kept = []
     for _ in range(L):
-        op = pick(rng, ["simulate", "hedge", "pl", "loss", "price", "fit", "to", "hedge", "pl", "clause", "payoff_and_features"])
+        op = pick(rng, ["simulate", "hedge", "pl", "loss", "price", "fit", "to", "hedge", "pl", "clause", "payoff_and_features", "keep_binding"])
         i = int(rng.integers(3))
         d = ders[i]
-        seq.append((op, i))
+        j = int(rng.integers(len(hedgers)))
+        hedger = hedgers[j]
+        seq.append((op, i) if len(hedgers) == 1 else (op, i, "hedger%d" % j))
         if op == "simulate":
             d.simulate(n_paths=int(pick(rng, [d._n, d._n + 1])))
         elif op == "to":
@@ -425,13 +452,18 @@ def drv_sequences(ctx, k, rng):
             d.to(pick(rng, [F32, F64]))
         elif op == "clause":
             d.add_clause("cap%d" % len(list(d.clauses())), lambda dd, p: p.clamp(max=0.05))
+        elif op == "keep_binding":
+            # the caller keeps the feature list bound to this derivative and reads it again at the end, after the same list has been bound elsewhere
+            use(d, hedger)
+            kept.append((i, hedger.inputs.of(d, hedger)))
+            ctx.branch("seq.binding_kept")
         elif op == "payoff_and_features":
-            use(d)
+            use(d, hedger)
             with torch.no_grad():
                 d.payoff()
                 hedger.inputs.of(d, hedger)  # binds features to another derivative; must not leak into later results
         else:
-            use(d)
+            use(d, hedger)
             if op == "hedge":
                 with torch.no_grad():
                     hedger.compute_hedge(d, _hedge_of(d))
@@ -447,9 +479,7 @@ def drv_sequences(ctx, k, rng):
                 ctx.branch("op.fit")
                 hedger.fit(d, _hedge_of(d), n_epochs=1, n_paths=max(d._n, 2), verbose=False, validation=bool(rng.random() < 0.5))
     D = ders[int(rng.integers(3))]
-    use(D)
     mon = "history.independent"
-    ctx.seen(mon)
     # the underlier may also be re-simulated directly or through a sibling derivative: everything hanging off it must follow
     if rng.random() < 0.5:
         sib = pick(rng, [D.ul(), D])
@@ -457,17 +487,47 @@ def drv_sequences(ctx, k, rng):
             D.simulate(n_paths=D._n)
         else:
             sib.simulate(n_paths=D._n, time_horizon=D.maturity)
-    with torch.no_grad():
-        h1 = hedger.compute_hedge(D, _hedge_of(D))
-        p1 = hedger.compute_pl(D, _hedge_of(D))
-        fresh = _fresh(hedger, names, None)
-        fresh_hedge = None if D._listed is None else [_make_listed(D)]  # fresh instruments too: same contract, same underlier buffers
-        h2 = fresh.compute_hedge(D, fresh_hedge)
-        p2 = fresh.compute_pl(D, fresh_hedge)
-        l1, l2 = hedger.criterion(p1), fresh.criterion(p2)
-    ok = bit_equal(h1, h2) and bit_equal(p1, p2) and bit_equal(l1, l2)
-    ctx.check(mon, ok, "history_dependence", f"after {seq} the hedger's result on derivative {ders.index(D)} differs from a fresh hedger with the same parameters",
-              sig=(tuple(o for o, _ in seq)[:6], any(n == "prev_hedge" for n in names if isinstance(n, str)), type(D).__name__), sequence=seq, used=h1.reshape(-1)[:8], fresh=h2.reshape(-1)[:8])
+    for j, hedger in enumerate(hedgers):
+        use(D, hedger)
+        ctx.seen(mon)
+        with torch.no_grad():
+            h1 = hedger.compute_hedge(D, _hedge_of(D))
+            p1 = hedger.compute_pl(D, _hedge_of(D))
+            fresh = _fresh(hedger, names, pristine)
+            fresh_hedge = None if D._listed is None else [_make_listed(D)]  # fresh instruments too: same contract, same underlier buffers
+            h2 = fresh.compute_hedge(D, fresh_hedge)
+            p2 = fresh.compute_pl(D, fresh_hedge)
+            l1, l2 = hedger.criterion(p1), fresh.criterion(p2)
+        ok = bit_equal(h1, h2) and bit_equal(p1, p2) and bit_equal(l1, l2)
+        ctx.check(mon, ok, "history_dependence", f"after {seq} the result of hedger {j} on derivative {ders.index(D)} differs from a fresh hedger with the same parameters",
+                  sig=(tuple(o[0] for o in seq)[:6], any(n == "prev_hedge" for n in names if isinstance(n, str)), type(D).__name__, j), sequence=seq,
+                  used=h1.reshape(-1)[:8], fresh=h2.reshape(-1)[:8])
+    mon = "binding.stays_bound"
+    for i, bound in kept:
+        d = ders[i]
+        if "spot" not in d.ul()._buffers:
+            continue
+        ctx.seen(mon)
+        bad = {}
+        with torch.no_grad():
+            # (a feature counts as state dependent once it is bound to a hedger and keeps it: prev_hedge and module outputs of it)
+            both = [(n, f) for n, f in zip(names, [get_feature(copy.deepcopy(n0)).of(d, hedgers[0]) for n0 in pristine]) if not f.is_state_dependent()]
+            want = [f for _, f in both]
+            got = [f for f in bound.features if not f.is_state_dependent()]
+            ok = len(got) == len(want)
+            if not ok:
+                bad = dict(kept_features=[type(f).__name__ for f in bound.features], expected=[type(f).__name__ for f in want])
+            if ok:
+                for f, g, n in zip(got, want, [n for n, _ in both]):
+                    if isinstance(n, torch.nn.Module):
+                        continue  # parametrised module outputs follow the (trained) parameters; their binding is judged through the hedge above
+                    a, b = f.get(0), g.get(0)
+                    if not (a.shape == b.shape and bit_equal(a, b)):
+                        ok = False
+                        bad = dict(feature=P.fname(n), kept=a.reshape(-1)[:6], fresh=b.reshape(-1)[:6], kept_shape=list(a.shape), fresh_shape=list(b.shape))
+                        break
+        ctx.check(mon, ok, "binding_rebound", f"after {seq} a feature list bound earlier to derivative {i} no longer yields that derivative's features "
+                  f"(binding it to another derivative reached into the earlier result)", sig=("kept", len(kept), type(d).__name__), sequence=seq, **bad)
     if k < 4:
         ctx.sample({"driver": "sequences", "inputs": names, "sequence": seq, "derivatives": [repr(d)[:80] for d in ders]})
 
